@@ -257,6 +257,48 @@ def check(run):
             run.violation("Parse(%r) gives a different result when %r was parsed before it" % (y[:90], x[:90]),
                           {"kind": "history-dependent", "sql": y, "parsed_before": x, "after": after[:300], "in_a_process_that_never_saw_it": alone[:300]})
             break
+    # 3c. ... nor on what the rest of the library did with the statement in between: Parse(text), then the schema code
+    # interprets that very text (db.Schema on a database whose sqlite_master holds it), then Parse(text) again
+    import os as _os
+    from vlib import core as _core, sqlfmt as _sqlfmt
+    wd3 = _os.path.join(_core.WORK, "c16"); _os.makedirs(wd3, exist_ok=True)
+    p3 = _os.path.join(wd3, "defs.db")
+    if _os.path.exists(p3):
+        _os.remove(p3)
+    conn3 = _sqlfmt.new_db(p3, 1024)
+    defs3 = ["CREATE TABLE acct (id INTEGER, x TEXT COLLATE rtrim, PRIMARY KEY (id COLLATE nocase)) WITHOUT ROWID", "CREATE TABLE a2 (a TEXT COLLATE nocase, b, UNIQUE (a, b), PRIMARY KEY (b, a COLLATE binary))",
+             "CREATE TABLE a3 (k INTEGER PRIMARY KEY DESC, v DEFAULT 'x  y' UNIQUE)"]
+    for x in stmts[:(200 if quick else 3000)]:
+        if x.startswith("CREATE TABLE"):
+            defs3.append(x.replace("CREATE TABLE t ", "CREATE TABLE t%d " % len(defs3), 1).replace("CREATE TABLE t(", "CREATE TABLE t%d(" % len(defs3), 1))
+    names3 = []
+    for x in defs3:
+        try:
+            conn3.execute(x)
+        except sqlite3.Error:
+            continue
+    for nm, sq in conn3.execute("SELECT name, sql FROM sqlite_master WHERE type='table' AND sql IS NOT NULL").fetchall():
+        names3.append((nm, sq))
+        if len(names3) % 3 == 0:
+            try:
+                conn3.execute("CREATE INDEX %s_ix ON %s(%s)" % (nm, nm, [r[1] for r in conn3.execute("PRAGMA table_info(%s)" % nm)][0]))
+            except sqlite3.Error:
+                pass
+    conn3.close()
+    l3 = [("open", "db %s" % p3)]
+    for n, (nm, sq) in enumerate(names3):
+        h = sq.encode("utf-8", "surrogatepass").hex()
+        l3 += [("a%d" % n, "parse %s" % h), ("s%d" % n, "schema %s" % nm.encode().hex()), ("b%d" % n, "parse %s" % h)]
+    l3 += [("c%d" % n, "parse %s" % sq.encode("utf-8", "surrogatepass").hex()) for n, (nm, sq) in enumerate(names3)]
+    _, i3, _ = ops.run_cmds("c16-parse-schema-parse", l3, sides=("impl",), timeout=900)
+    dist["parse_schema_parse"] = len(names3)
+    for n, (nm, sq) in enumerate(names3):
+        run.count()
+        a, b, c = [(i3.get("%s%d" % (t_, n)) or ["?"])[0] for t_ in "abc"]
+        if a != b or a != c:
+            run.violation("Parse(%r) reports something else after db.Schema(%s) has interpreted that statement" % (sq[:100], nm),
+                          {"kind": "history-dependent", "sql": sq, "before": a[:400], "after": (b if a != b else c)[:400]})
+            break
     # 4. locality: what is reported about one column / indexed column does not depend on its neighbours
     conn = sqlite3.connect(":memory:")
     conn.execute("CREATE TABLE other(x PRIMARY KEY)")
